@@ -276,8 +276,7 @@ def recvPing (c : H2Conn) (ack : Bool) (sid len : Nat) (octets : Bytes) : Res :=
     is absorbed. -/
 def refuseStream (c : H2Conn) (sid : Nat) : Res :=
   if c.sentSettings ∧ sid > 200 then sendGoaway c E.enhanceCalm else
-  let c0 := if c.sentSettings then { c with hcRecent := true } else c
-  let c1 := { c0 with cid := sid, nRefused := c0.nRefused + 1 }
+  let c1 := { c with hcRecent := c.hcRecent || c.sentSettings, cid := sid, nRefused := c.nRefused + 1 }
   let r : Res := if c1.nRefused > 16 then sendGoaway c1 0 else (c1, [])
   (r.1, [.rst sid E.refused] ++ r.2)
 
@@ -419,6 +418,13 @@ def dataSplit (file : Bool) (fsize : Nat) : Nat → Nat → List Nat
   | fuel + 1, n + 1 =>
     (if n + 1 < fsize then n + 1 else if file then fsize - 9 else fsize) ::
       dataSplit file fsize fuel (n + 1 - (if n + 1 < fsize then n + 1 else if file then fsize - 9 else fsize))
+
+/-- the loop of h2_send_hpack(): a header block of `n` octets goes out as one HEADERS frame and
+    then CONTINUATION frames, each with at most `fsize` payload octets; the last one carries
+    END_HEADERS (an empty block is one empty HEADERS frame).  Result: the payload sizes. -/
+def hpackSplit (fsize : Nat) : Nat → Nat → List Nat
+  | 0, n => [n]
+  | fuel + 1, n => if n ≤ fsize then [n] else fsize :: hpackSplit fsize fuel (n - fsize)
 
 /-- one stream's turn in a pass; returns (stream or none if retired, frames, bytes sent, hcRecent) -/
 def strmTurn (fsize : Nat) (cswin : Int) (budget : Nat) (s : Strm) : Option Strm × List Out × Nat × Bool :=
